@@ -576,7 +576,13 @@ def reader_rules(ctx, classes):
             for bp in ev[4]:
                 for c in bp.calls():
                     if c[1] == 'setattr' and len(c[3]) == 3 and \
-                            c[3][0] == m and kind(c[3][1]) == 'sub':
+                            c[3][0] == m and (
+                                kind(c[3][1]) == 'sub' or (
+                                    # _hcode.get(code)
+                                    kind(c[3][1]) == 'call' and
+                                    kind(c[3][1][2]) == 'attr' and
+                                    c[3][1][2][2] == 'get' and
+                                    kind(c[3][1][2][1]) == 'dict')):
                         okf = True
         ctx.ob('C03.D3', q, 'restores-fields', okf,
                'every (code, value) of header slot 6 must be stored on the '
@@ -588,8 +594,21 @@ def reader_rules(ctx, classes):
                 kind(body[2]) == 'slice' and body[2][2] == NONE:
             lo = body[2][1]
             okb = True
+            from ..sym import truth
             for nh in range(0, 24):
-                r = subst_fold(lo, {nheader: C(nh)})
+                env = {nheader: C(nh)}
+                # padding computed by a conditional: the path is taken only
+                # for the header lengths its condition admits
+                feas = True
+                for c_, pol_ in p.cond:
+                    if contains(c_, lambda x: x == nheader):
+                        tv = truth(subst_fold(c_, env))
+                        if tv is not None and tv != pol_:
+                            feas = False
+                if not feas:
+                    continue
+                covered.setdefault('<padding>', set()).add(nh)
+                r = subst_fold(lo, env)
                 if r != C(nh + ((-nh) % 8)):
                     okb = False
         ctx.ob('C03.D4', q, 'body-starts-after-padding', okb,
@@ -611,6 +630,12 @@ def reader_rules(ctx, classes):
             ctx.ob('C03.D4', q, 'body-decoded-under-signature', okc,
                    'the body must be decoded from rawBody under the parsed '
                    'signature with the parsed byte order')
+    pads = covered.pop('<padding>', None)
+    if pads is not None:
+        ctx.ob('C03.D4', q, 'body-starts-after-padding:all-lengths',
+               pads == set(range(24)),
+               'some header length (mod 8) reaches no return path: %s'
+               % sorted(set(range(24)) - pads))
     for attr, fls in sorted(covered.items()):
         ctx.ob('C03.D3', q, 'restores-flag:%s:all-values' % attr,
                fls == set(range(4)),
